@@ -201,6 +201,14 @@ def run(ctx):
         calls = [rng.choice(pool) for _ in range(rng.randint(5, ctx.scale(60, 200)))]
         batch.append((calls, check_history(ctx, MathParser, calls, 'hist:random'), False))
     compare_hist_with_model(ctx, batch); batch = []
+    # ---- (2b) object identity: scratch rebinding and aliasing of cached expressions, vs the object-identity model
+    hb = []
+    for seq in itertools.product(alpha[:8], repeat=2):
+        hb.append((list(seq), heap_history(ctx, list(seq), 'heap:exh2')))
+    for k in range(ctx.scale(60, 600)):
+        calls = [rng.choice(pool[:len(ALPHA) + 200]) for _ in range(rng.randint(3, ctx.scale(25, 80)))]
+        hb.append((calls, heap_history(ctx, calls, 'heap:random')))
+    compare_heap_with_model(ctx, hb)
     # ---- (3) the shared module-level PARSER with interleaved evaluate calls
     envs = [({'x': 2.0, 'y': 3.0, 'a': 1.5, 'b': 0.5, 'qq': 1.0}, {'k': 1000.0, '%': 0.01}),
             ({'x': -1.0, 'y': 0.25, 'a': 2.0, 'b': 4.0, 'qq': 3.0}, {'k': 1024.0, '%': 0.01, 'M': 1e6})]
@@ -266,6 +274,52 @@ def run(ctx):
         ctx.case({'consumer': label, 'outcome': outcome, 'cache_size': len(PARSER.cache)}, nontrivial_key=('c', k, label) if outcome == 'returned' else None, kind='hist:consumer')
         if bad:
             break
+
+
+def heap_history(ctx, calls, kind):
+    """the same history observed at the level of OBJECT IDENTITY: which set object is bound to the parser after each call, which object the
+    returned expression holds, and what every cached expression reads — compared with the object-identity model (PH) call by call"""
+    from mitxgraders.helpers.calc.expressions import MathParser
+    from mitxgraders.exceptions import MITxError
+    p = MathParser()
+    keep, canon = [], {}
+
+    def cid(obj):
+        keep.append(obj)                     # keep every set alive so that id() values are never reused
+        return canon.setdefault(id(obj), len(canon))
+    cid(p.variables_used)
+    impl = []
+    for s in calls:
+        try:
+            e = p.parse(s)
+            rec = {'expr': cid(e.variables_used), 'usage': usage_of(e)}
+        except MITxError:
+            rec = {'expr': None}
+        except RecursionError:
+            break
+        rec['scratch'] = cid(p.variables_used)
+        rec['scratch_empty'] = not (p.variables_used or p.functions_used or p.suffixes_used)
+        rec['cached'] = sorted(({'key': k, 'id': cid(v.variables_used), 'usage': usage_of(v)} for k, v in p.cache.items()), key=lambda d: d['key'])
+        # the three sets of one expression / of the parser are replaced together
+        for k, v in p.cache.items():
+            if v.functions_used is p.functions_used or v.suffixes_used is p.suffixes_used or v.variables_used is p.variables_used:
+                ctx.violation('a cached expression shares a set object with the parser (later parses will write into it)', {'calls': calls, 'kind': kind, 'key': k})
+        impl.append(rec)
+    ctx.case({'calls': calls[:8], 'ids': [(r['expr'], r['scratch']) for r in impl[:8]]}, nontrivial_key=('heap', tuple(calls)) if any(r['expr'] is None for r in impl) and any(r['expr'] is not None for r in impl) else None, kind=kind)
+    return impl
+
+
+def compare_heap_with_model(ctx, batch):
+    if ctx.driver is None or not batch:
+        return
+    outs = ctx.driver.ask_many([{'op': 'parse_hist_heap', 'calls': calls} for calls, _ in batch])
+    for (calls, impl), o in zip(batch, outs):
+        for i, (r, m) in enumerate(zip(impl, o['out'])):
+            m = dict(m)
+            m['cached'] = sorted(m['cached'], key=lambda d: d['key'])
+            if r != m:
+                ctx.disagree('object-identity history: call %d differs from the model (ids are canonicalised by first appearance)' % i, {'calls': calls[:i + 1]}, r, m)
+                break
 
 
 def consumer_ops(rng):
